@@ -257,7 +257,7 @@ structure St where
   ms : List (Nat × Bool)           -- Http2Connection.streams: ours ↦ (HEADERS_RECEIVED?)
   closed : Bool                    -- _handle_event is self.done
   up : List (Nat × UpKind × Option Nat)  -- ReceiveHttp events: client-side stream id, kind (+ ghost: the upstream id)
-  crashed : Bool                   -- KeyError in their_stream_id[...] (cannot happen, see `response_routed`)
+  crashed : Bool                   -- KeyError in their_stream_id[...]: only for a stream id hyper-h2 never reports (see `crashed_only_by_unknown_trailers`)
   -- ghost state (written, never read by the transitions)
   sub : List (Nat × Ev)            -- every event submitted by the HTTP layer
   fw : List (Nat × Nat × Ev)       -- (their, ours, event) in the order `_handle_event2` saw them
